@@ -181,6 +181,9 @@ def run(check, an: Analysis):
                        path=rules.path_lines(*bad) if bad else None, analysed=n)
     # ---- I ------------------------------------------------------------------
     check_immediacy(check, an, 'I')
+    # ... and later exactly when it comes to hold: the signal of an until block is
+    # delivered without a second look at the condition (rule shared with C08)
+    c08.check_comparison_trigger(check, an, 'I')
     check.floor('I', 20)
     # ---- C ------------------------------------------------------------------
     c08._check_trigger_coverage(check, an, c08.condition_classes(an))
